@@ -6,6 +6,7 @@
      (eqmatrix (A ...) (B ...))-> (m "...")             py_eq, same shape
      (setmatrix (S ...) (D ...)) / (elemmatrix ..) / (cvmatrix ..) -> (m "...")   set_admits / elem_admits /
                                                        computed_admits, rows = source specs, columns = targets
+     (simatrix (S ...) (D ...)) -> (m "...")            store_into_admits (ComputedValue.store_into), rows = produced specs
      (pairs (A B) (A B) ...)   -> (m "xyxy...")         per pair: x = assignable A B, y = py_eq A B
      (subclass C D)            -> true | false          issubclass table
      (descr T)                 -> (descr "type_str" "py_str" <is_dynamic> <static_len | none> <layout> <encodable> CLASS)
@@ -163,6 +164,7 @@ Definition dispatch (e : sexp) : sexp :=
       else if String.eqb cmd "setmatrix" then do_matrix set_admits body
       else if String.eqb cmd "elemmatrix" then do_matrix elem_admits body
       else if String.eqb cmd "cvmatrix" then do_matrix computed_admits body
+      else if String.eqb cmd "simatrix" then do_matrix store_into_admits body
       else if String.eqb cmd "subclass" then do_subclass body
       else if String.eqb cmd "descr" then do_descr body
       else if String.eqb cmd "encode" then do_tv (fun t v => p_obytes (arc4_encode t v)) body
